@@ -4,7 +4,7 @@
    every behaviour of them. *)
 From Chihaya Require Import Model.Peer Model.Query.
 From Chihaya Require Model.HttpParse Model.UdpParse.
-From Chihaya Require Import Proofs.SourceIPP.
+From Chihaya Require Import Proofs.SourceIPP Model.Tracker Proofs.SwarmP Proofs.SpecP Proofs.TrackerP Proofs.FamilyP.
 Open Scope Z_scope.
 
 Theorem C11_http_registered_nospoof :
@@ -95,3 +95,20 @@ Theorem C11_udp_spoof_legacy_mangles_v6_refuted :
     fst (UdpParse.choose_ip_legacy o (Some src) ipb) <> Some ipb.
 Proof. exact udp_spoof_legacy_mangles_v6_refuted. Qed.
 Print Assumptions C11_udp_spoof_legacy_mangles_v6_refuted.
+
+(* ---- on the wire, through parse -> logic -> store, in every reachable state: an accepted UDP announce datagram registers
+   its peer under the transport source address when spoofing is off (whatever the IP field says) or the field is zero,
+   under the client-supplied field when spoofing is on and the field is not zero - and the swarm afterwards lists that key *)
+Theorem C11_udp_announce_registers_address :
+  forall mac t u ops clock ip packet txid v6a r q,
+    Forall sop_sane ops -> wf_bytes packet = true -> wf_bytes ip = true -> (length ip = 4 \/ length ip = 16)%nat ->
+    UdpParse.handle_udp mac (uc_key u) (uc_skew u) clock (uc_opts u) ip packet = UdpParse.UAnnounce txid v6a r q ->
+    let a := ann_of_areq r in
+    let field := sub 84 (UdpParse.ip_end v6a) packet in
+    (UdpParse.o_spoof (uc_opts u) = false \/ UdpParse.all_zero field = true -> p_ip (a_peer a) = stored_form ip) /\
+    (UdpParse.o_spoof (uc_opts u) = true -> UdpParse.all_zero field = false -> p_ip (a_peer a) = stored_form field) /\
+    exists sp' d, udp_step spec_if mac t u (run_spec ops) clock ip packet = Some (sp', [d]) /\
+      let sw := swarm_of sp' (a_ih a) (a_v6 a) in
+      (a_event a <> EvStopped -> seeders sw !! a_key a = Some clock \/ leechers sw !! a_key a = Some clock).
+Proof. exact udp_announce_registers_address. Qed.
+Print Assumptions C11_udp_announce_registers_address.
